@@ -337,6 +337,16 @@ def run_group(g, woven, scratch, want_trace=False):
         if unwind_fail and not failed:
             last_reason = 'unwinding bound too small: %s' % unwind_fail[0]['name']
             continue
+        # a frame check on a bare identifier that is not ghost state ("Check that pos is assignable") means the changed
+        # function has a new local variable that the woven loop/function assigns clause does not list: locals are invisible
+        # to callers, so this is a contract that no longer fits the code (undecided), never a property violation --
+        # unless a genuine obligation fails as well
+        local_frame = [o for o in failed if '.assigns.' in (o['name'] or '') and
+                       re.match(r'^Check that (?!vg_)[A-Za-z_]\w* is assignable$', o['desc'] or '')]
+        failed = [o for o in failed if o not in local_frame]
+        if local_frame and not failed:
+            last_reason = 'frame clause no longer lists a local of the changed code: %s (%s)' % (local_frame[0]['name'], local_frame[0]['desc'])
+            continue
         if bad and not failed:
             # ERROR = solver said unknown; UNKNOWN without any definite failure = not determined
             last_reason = 'obligation status %s on %s: %s' % (bad[0]['status'], be, bad[0]['name'])
